@@ -18,7 +18,24 @@ def run(chk, tmp, replay=None):
     chk.add_tlc("Loader: every abstract package (enrichment rules) and every annotation line-kind sequence", res)
     out = os.path.join(tmp, "loader_out.json")
     scratch = os.path.join(tmp, "ls")
-    p = core.run([hbin, "loader", os.path.join(wd, "loader_cases.json"), scratch, out, str(chk.seed)], timeout=3000)
+    shards = 6
+    from concurrent.futures import ThreadPoolExecutor
+    def shard_run(i):
+        return core.run([hbin, "loader", os.path.join(wd, "loader_cases.json"), scratch + f"_{i}", out + f".{i}", str(chk.seed), str(i), str(shards)], timeout=3000)
+    with ThreadPoolExecutor(shards) as ex:
+        procs = list(ex.map(shard_run, range(shards)))
+    p = next((q for q in procs if q.returncode != 0), procs[0])
+    if p.returncode != 0:
+        bad = procs.index(p)
+        scratch = scratch + f"_{bad}"
+    else:
+        merged = {"counts": {}, "disagreements": []}
+        for i in range(shards):
+            d = json.load(open(out + f".{i}"))
+            for k, v in d["counts"].items():
+                merged["counts"][k] = merged["counts"].get(k, 0) + v
+            merged["disagreements"] += d["disagreements"]
+        json.dump(merged, open(out, "w"))
     chk.cov["rule"] = ("one evaluation = one rendering loaded by the real loader; distinct = distinct (abstract package, format) or line sequence or corrupted text; "
                        "non-trivial = all but the empty line sequence")
     chk.cov["bounds"] = {"packages": "one target: 3 dependency lists x 4 input lists (literal, glob, missing + glob) x exclude or not x 3 output lists x no-cache x fingerprint x platforms x timeout x bin_output, "
